@@ -103,7 +103,7 @@ class ContractFile:
         self.backend = backend
         self.text = path.read_text()
         self.meta = {}
-        for m in re.finditer(r"^//@@\s*(\w+)\s*:\s*(.*)$", self.text, re.M):
+        for m in re.finditer(r"^//@@\s*([\w-]+)\s*:\s*(.*)$", self.text, re.M):
             self.meta.setdefault(m.group(1), []).append(m.group(2).strip())
         self.module = self.meta.get("module", [None])[0]  # path relative to src/
         self.tag = self.meta.get("tag", [path.stem.replace("@", "_").replace("-", "_")])[0]
@@ -450,6 +450,37 @@ def expand_methods(text, root, record):
     return METHODS_RE.sub(repl, text)
 
 
+FNS_RE = re.compile(r"^[ \t]*//@@[ \t]*fns-except[ \t]*:[ \t]*(\S+)[ \t]*::[ \t]*(.*?)[ \t]*$", re.M)
+
+
+def expand_fns(text, root, record):
+    """//@@ fns-except: <relpath> :: name1, name2, ...
+    is replaced by the verbatim text of EVERY top-level `fn` item of that file (outside impl / mod / trait blocks, tests
+    excluded) except the named ones -- so that a free helper function added to the module later and called from an extracted
+    item is compiled in the contract scope too, against the same ghost types, instead of losing the anchor."""
+
+    def repl(m):
+        rel, names = m.group(1), [x.strip() for x in m.group(2).split(",") if x.strip()]
+        src = _read_src(rel, root)
+        mask = strip_comments_mask(src)
+        out = []
+        for mm in re.finditer(r"(?m)^(?:pub(?:\([a-z:]+\))?\s+)?(?:const\s+)?fn\s+([A-Za-z0-9_]+)\b", mask):
+            if mm.group(1) in names:
+                continue
+            k = mask.find("{", mm.end())
+            semi = mask.find(";", mm.end())
+            if k < 0 or (0 <= semi < k):
+                continue
+            e = match_brace(mask, k)
+            txt = src[mm.start():e + 1]
+            record.append({"source": ("src/" + rel) if not rel.startswith("src/") else rel, "item": "fn " + mm.group(1),
+                           "sha256_of_source_span": sha256(txt), "renamed_to": None, "substitutions": ["free helper function of the module, copied verbatim (fns-except)"]})
+            out.append(txt)
+        return "\n".join(out)
+
+    return FNS_RE.sub(repl, text)
+
+
 BODY_RE = re.compile(r"^[ \t]*//@@[ \t]*body[ \t]*:[ \t]*(\S+)[ \t]*::[ \t]*(.*?)[ \t]*=>[ \t]*(\w+)[ \t]*(.*)$", re.M)
 
 
@@ -624,6 +655,7 @@ def expand_bodies(text, root, record):
 
     text = expand_items(text, root, record)
     text = expand_methods(text, root, record)
+    text = expand_fns(text, root, record)
     text = expand_closures(text, root, record)
     text = expand_loopsteps(text, root, record)
     text = re.sub(r"^[ \t]*//@@stubs-tables[ \t]*$", TABLE_STUBS, text, flags=re.M)
@@ -642,6 +674,19 @@ def stage_kani(scratch, cfiles, extra_tests=None, nocover=False):
     subprocess.run(["rsync", "-a", "--exclude", "/target", "--exclude", ".git", str(REPO) + "/", str(stage) + "/"],
                    check=True)
     record = {"appended": [], "bodies": []}
+    # //@@ cargo-dep: <line for [dependencies]>  -- e.g. switch a dependency to its portable (no inline asm) back end; recorded
+    deps = []
+    for cf in cfiles:
+        for d in cf.meta.get("cargo-dep", []) + cf.meta.get("cargo_dep", []):
+            if d not in deps:
+                deps.append(d)
+    if deps:
+        ct = (stage / "Cargo.toml").read_text()
+        if "[dependencies]" not in ct:
+            raise LookupError("anchor lost: Cargo.toml has no [dependencies] section")
+        ct = ct.replace("[dependencies]", "[dependencies]\n" + "\n".join(deps), 1)
+        (stage / "Cargo.toml").write_text(ct)
+        record["cargo_dependencies_added"] = deps
     by_module = {}
     for cf in cfiles:
         by_module.setdefault(cf.module, []).append(cf)
